@@ -443,6 +443,14 @@ class Gen:
         self.act("stabilise")
         self.act(f"set v{vx} {self.rng.randint(0, 4)}")
         self.act("stabilise")
+        if leaked in self.tokens and self.rng.random() < 0.6:
+            # the node is invalid by now: a further subscription / observer on it must not make the first
+            # subscriber hear `Invalidated` a second time
+            self.act(f"subscribe o{leaked} h0")
+            self.act("stabilise")
+            self.act(f"observe @s{slot}")
+            self.obs.append({"node": None, "clones": 1, "dis": False})
+            self.act("stabilise")
         self.count("motif_leak" + ("_nested" if nested else ""))
 
     def motif_scoped_var(self):
@@ -621,6 +629,46 @@ class Gen:
             self.act("stabilise")
         self.count("motif_expert_late_target")
 
+    def motif_expert_invalid_dep(self):
+        """an expert node depends (through its driver's `xsel`) on a node built inside a bind; in ONE stabilise that bind
+        re-runs (the dependency becomes invalid) and the expert node drops out of the observed graph (a second bind
+        switches away from it); later it comes back and its driver replaces the dead dependency"""
+        rng = self.rng
+        self.mk_var(); x = len(self.nodes) - 1; vx = self.nodes[x]["var"]
+        self.mk_var(); sel = len(self.nodes) - 1; vs = self.nodes[sel]["var"]
+        self.mk_var(); dv = len(self.nodes) - 1; vd = self.nodes[dv]["var"]
+        self.mk_var(); base = len(self.nodes) - 1; vb = self.nodes[base]["var"]
+        for v in (vx, vs, vd, vb):
+            self.vars[v]["alive"] = False
+        g = self.new_fn(1, m=7)
+        slot = self.nslot; self.nslot += 1
+        bB = self.nbody; self.nbody += 1
+        self.defs.append(f"body b{bB} 2 map f{g} n{base} ; pub s{slot} %0 ; ret %0 | map f{g} n{base} ; pub s{slot} %0 ; ret %0")
+        self.act(f"bind b{bB} n{x}"); B = self.add_node("bind")
+        self.act(f"observe n{B}"); self.obs.append({"node": B, "clones": 1, "dis": False})
+        self.act("stabilise")
+        self.act("expert sumdeps 7"); e = self.add_node("expert"); self.experts.append(e)
+        f = self.new_fn(1, [f"xsel n{e} {rng.choice(['nocb', 'cb'])} always @s{slot} @s{slot}"])
+        self.act(f"map f{f} n{dv}"); d = self.add_node("driver")
+        self.act(f"adddep n{e} n{d} nocb")
+        bS = self.nbody; self.nbody += 1
+        self.defs.append(f"body b{bS} 2 ret n{e} | lhsconst ; ret %0")
+        self.act(f"set v{vs} 0")
+        self.act(f"bind b{bS} n{sel}"); S = self.add_node("bind")
+        self.act(f"observe n{S}"); self.obs.append({"node": S, "clones": 1, "dis": False})
+        self.act("stabilise")
+        acts = [f"modify v{vx} 1", f"set v{vs} 1"]
+        rng.shuffle(acts)
+        for a in acts:
+            self.act(a)
+        self.act("stabilise")
+        self.act(f"set v{vs} 0")
+        self.act(f"modify v{vd} 1")
+        self.act("stabilise")
+        self.act(f"modify v{vb} 1")
+        self.act("stabilise")
+        self.count("motif_expert_invalid_dep")
+
     def motif_cutoff_reobserve(self):
         """a chain whose tail is often cut off (function with many collisions), observed, unobserved and
         observed again with and without writes in between"""
@@ -791,7 +839,8 @@ class Gen:
         if self.profile in ("bind", "general", "static", "expert", "varw"):
             r = rng.random()
             if self.profile == "expert" and r < 0.5:
-                (self.motif_expert_stale if r < 0.25 else self.motif_expert_late_target)()
+                (self.motif_expert_stale if r < 0.2 else self.motif_expert_late_target if r < 0.35
+                 else self.motif_expert_invalid_dep)()
             elif r < 0.07 and self.profile in ("bind", "general", "varw"):
                 self.motif_scoped_var()
             elif 0.93 < r and self.profile in ("varw", "general") and not self.c01_safe:
@@ -1087,7 +1136,7 @@ def gen_limits(rng, debug=True):
         f = nfn[0]; nfn[0] += 1
         defs.append(f"fn f{f} lin 7 0 " + " ".join("1" for _ in range(ar)))
         return f
-    variant = rng.choice(["chain", "chain", "reconf", "bindchain", "cycle1", "cycle2", "cycle3", "nested_fn", "nested_hdl"])
+    variant = rng.choice(["chain", "chain", "reconf", "bindchain", "cycle1", "cycle2", "cycle3", "cycle4", "nested_fn", "nested_hdl"])
     count("limits_" + variant)
     if variant.startswith("nested") and N < 3:
         N = 3
@@ -1178,6 +1227,32 @@ def gen_limits(rng, debug=True):
         acts.append(f"observe n{m1}")
         acts.append("stabilise")
         acts.append("set v0 1")
+        acts.append("expectpanic cyclic height-limit")
+        acts.append("stabilise")
+        acts.append("dropall")
+    elif variant == "cycle4":
+        # the cycle of cycle3, closed while the change detector of B1 is QUEUED: B1 is unobserved for a while, its input
+        # changes, and the selector flips in the same stabilise in which B1 is observed again
+        if N < 9:
+            N = 9
+            lines[1] = f"maxheight {N}"
+        v = var()
+        base = var()
+        defs.append(f"body b0 2 ret n{base} | ret @s0")
+        acts.append(f"bind b0 n{v}"); nodes += 1; m0 = nodes - 1
+        f = fn(1)
+        defs.append(f"body b1 1 lhsconst ; map f{f} %0 ; pub s0 %1 ; ret %1")
+        acts.append(f"bind b1 n{m0}"); nodes += 1; m1 = nodes - 1
+        acts[0] = "var 0"
+        acts.append(f"observe n{m1}")
+        acts.append(f"observe n{m0}")
+        acts.append("stabilise")
+        acts.append("disallow o0")
+        acts.append("stabilise")
+        acts.append(f"modify v1 {rng.randint(1, 3)}")
+        acts.append("stabilise")
+        acts.append("set v0 1")
+        acts.append(f"observe n{m1}")
         acts.append("expectpanic cyclic height-limit")
         acts.append("stabilise")
         acts.append("dropall")
